@@ -315,3 +315,34 @@ func vhReal() float64 {
 	vAssume(-16 <= x && x <= 16)
 	return x
 }
+
+// vhAtan2GP: like vhAtan2Sign, and additionally bounded away from 0 and +-pi when the vector is
+// clearly off the x-axis: |atan2(y,x)| >= |y|/(|x|+|y|) and pi-|atan2(y,x)| >= |y|/(|x|+|y|).
+// With |y| >= 1e-3(|x|+|y|) that gives 1e-3 <= |r| <= pi-1e-3.
+func vhAtan2GP(y, x float64) float64 {
+	r := vNondetF64()
+	ay, ax := math.Abs(y), math.Abs(x)
+	off := ay >= 1e-3*(ax+ay) && ay > 0
+	vAssume((y != 0 || x < 0 || r == 0) &&
+		(y != 0 || x >= 0 || r == math.Pi) &&
+		(y <= 0 || (0 < r && r < math.Pi)) &&
+		(y >= 0 || (-math.Pi < r && r < 0)) &&
+		(!off || (math.Abs(r) >= 1e-3 && math.Abs(r) <= math.Pi-1e-3)))
+	return r
+}
+
+// vhMod2Pi: math.Mod(x, 2*pi) for |x| <= 8*pi, exact in the rational domain.
+func vhMod2Pi(x, y float64) float64 {
+	r := x
+	for k := 0; k < 4; k++ {
+		if r <= -y {
+			r += y
+		}
+	}
+	for k := 0; k < 4; k++ {
+		if r >= y {
+			r -= y
+		}
+	}
+	return r
+}
